@@ -1,7 +1,7 @@
 #!/bin/bash
 # usage: tools/try_seed.sh <patch.diff> <Cxx> [<Cyy> ...]   -- apply a seeded patch to /repo, run checks, undo
 set -u
-patch="$1"; shift
+patch="$(realpath "$1")"; shift
 cd /repo || exit 2
 if [ -n "$(git status --porcelain)" ]; then echo "/repo not clean"; exit 2; fi
 if ! git apply --3way "$patch" 2>/tmp/try_seed.err; then echo "APPLY FAILED"; cat /tmp/try_seed.err; git reset -q --hard HEAD; exit 3; fi
